@@ -228,13 +228,15 @@ class World:
         job = self.loop.add_step_job("kvwrite", lambda: kvdoubles.writer_step(wt), label=str(item[0]) if item else "stop")
         job.enabled = lambda j=job: next((x for x in self.loop.jobs if x.kind == "kvwrite"), None) is j
 
-    def connect(self, name, addr="1.1.1.1"):
+    def connect(self, name, addr="1.1.1.1", storage=None):
         c = Conn(self, name, addr)
         self.conns[name] = c
+        st = storage if storage is not None else self.storage
+
         async def handler():
             try:
                 return await self.ns.web.start_client(
-                    self.storage, c.send, c.recv, c.close, c.log,
+                    st, c.send, c.recv, c.close, c.log,
                     rate_limiter=self.rate_limiter, remote_addr=addr, message_timeout=self.message_timeout)
             except BaseException as e:
                 c.handler_exception = e  # nothing may escape the connection handler (C19)
